@@ -40,6 +40,10 @@ FLAG_NAMES = ["FITERRSMALL", "FITERR", "FIXED2PSF", "FIXEDCIRCULAR",
 
 
 MUTANTS = [
+    ("flags parameter stores the copy taken before NOTFIT is raised",
+     "AegeanTools/source_finder.py",
+     "params.add(prefix + \"flags\", value=summit_flag, vary=False)",
+     "params.add(prefix + \"flags\", value=flag, vary=False)", "C03-R14"),
     ("istart = i", "AegeanTools/source_finder.py",
      "g, stage, outerclip, istart=i*group_size)",
      "g, stage, outerclip, istart=i)", "C03-R1"),
@@ -133,6 +137,7 @@ def run(ctx):
     r8(ctx, prog)
     r9(ctx, prog)
     r11(ctx, prog)
+    r14_flags_reach(ctx, prog)
     # the strings agree with the decimal coordinates: formatter rules shared
     # with C17 (quantise before splitting, hours mod 24 after rounding)
     from .c17 import sexagesimal
@@ -1115,3 +1120,58 @@ def _island_row(ctx, rc):
                       node=s)
     ctx.floor(R, n, 5, "island row fields (extent, pixels, components, "
               "x_width, y_width)")
+
+
+def r14_flags_reach(ctx, prog):
+    """every flag bit raised for a component reaches the flags parameter that
+    is stored for it (backward slice from the store, in statement order)"""
+    ctx.rule("C03-R14", "flags raised while a component's initial "
+             "parameters are built (NOTFIT / FIXED2PSF for summits beyond "
+             "max_summits, the island-level flags) reach the c<i>_flags "
+             "parameter: the stored value is the variable those bits were "
+             "or-ed into, not a copy taken before")
+    n = 0
+    for q, fi in sorted(prog.functions.items()):
+        stores = [c for c in walk_no_nested(fi.node) if isinstance(c, ast.Call)
+                  and isinstance(c.func, ast.Attribute)
+                  and c.func.attr == "add" and c.args
+                  and isinstance(c.args[0], ast.BinOp)
+                  and isinstance(c.args[0].right, ast.Constant)
+                  and c.args[0].right.value == "flags"]
+        if not stores:
+            continue
+        stmts = sorted((x for x in walk_no_nested(fi.node)
+                        if isinstance(x, (ast.Assign, ast.AugAssign))),
+                       key=lambda x: -x.lineno)
+        loops = [l for l in walk_no_nested(fi.node)
+                 if isinstance(l, (ast.For, ast.While))]
+        for c in stores:
+            v = kwarg(c, "value") or (c.args[1] if len(c.args) > 1 else None)
+            if v is None:
+                raise AnalysisError("C03-R14: value of the flags parameter")
+            n += 1
+            dep = set(names_in(v))
+            lost = []
+            inloop = [l for l in loops if any(x is c for x in ast.walk(l))]
+            lo = min((l.lineno for l in inloop), default=fi.node.lineno)
+            for st in stmts:
+                if st.lineno >= c.lineno:
+                    continue
+                up = as_update(st)
+                tnames = {norm(t) for t in (st.targets if isinstance(
+                    st, ast.Assign) else [st.target])}
+                raises = up is not None and up[1] is ast.BitOr and \
+                    "flags." in up[2]
+                if raises and up[0] not in dep:
+                    lost.append(st)
+                if tnames & dep:
+                    dep |= names_in(st.value)
+            ctx.check("C03-R14", fi, "flags stored for a component: " +
+                      norm(c, 60), not lost,
+                      "`%s` raises a flag that never reaches the stored "
+                      "value `%s` (a copy taken earlier): the component is "
+                      "held fixed / not fitted but its catalogue row carries "
+                      "no NOTFIT / FIXED2PSF bit, so its errors are not "
+                      "masked to -1" % (norm(lost[0]) if lost else "",
+                                        norm(v)), node=c)
+    ctx.floor("C03-R14", n, 1, "flags parameters stored")
